@@ -64,6 +64,8 @@ def handleXdr : List Sexp → Option String
     match decStream (← xdrTmpl? t) (← cs.mapM asBytes?) with
     | .ok (d, r) => pure (toString (list [atom "ok", xdrDataSexp d, atom (bytesToHex r.abs)]))
     | .error _ => pure "(err)"
+  | [atom "xdr-trace", t, b] => do
+    pure (" ".intercalate ((decTrace (← xdrTmpl? t) (← asBytes? b)).map toString))
   | [atom "xdr-url", t, b] => do
     match openDodsUrl (← xdrTmpl? t) (← asBytes? b) with
     | some (_, .ok d) => pure (toString (list [atom "ok", xdrDataSexp d]))
